@@ -112,6 +112,10 @@ pub struct BigCase {
     /// handle.  Nothing may ever be destroyed.
     #[serde(default)]
     pub sweep: bool,
+    /// dense group: a complete adoption digraph on n objects (n*n records for n
+    /// objects: work lists and tables far larger than the object count)
+    #[serde(default)]
+    pub dense: bool,
 }
 
 pub fn sizes(c: &BigCase, tier: Tier) -> (usize, usize) {
@@ -233,7 +237,10 @@ pub const L_NEST_GT64: u32 = 15;
 pub const L_SWEEP: u32 = 16;
 pub const L_SWEEP_ALL: u32 = 17;
 pub const L_NEST_GT1024: u32 = 18;
-pub const NAMES: [&str; 19] = ["adopted_tail", "outside_handles_kept", "outside_weaks", "destructor_clones_peer", "doubly_linked", "group>128", "group>4096", "group>16", "tail>1000", "payload_without_drop_glue", "destructor_panics", "object_adopted_by_every_member", "unwrap_after_taking_back_without_unadopt", "hub_fully_unadopted_again", "nested_collections_chain", "nesting_depth>64", "sole_holder_sweep", "sole_holder_sweep_every_member", "nesting_depth>1024"];
+pub const L_DENSE: u32 = 19;
+pub const L_DENSE_GT100K: u32 = 20;
+pub const L_HUB_GT16K: u32 = 21;
+pub const NAMES: [&str; 22] = ["adopted_tail", "outside_handles_kept", "outside_weaks", "destructor_clones_peer", "doubly_linked", "group>128", "group>4096", "group>16", "tail>1000", "payload_without_drop_glue", "destructor_panics", "object_adopted_by_every_member", "unwrap_after_taking_back_without_unadopt", "hub_fully_unadopted_again", "nested_collections_chain", "nesting_depth>64", "sole_holder_sweep", "sole_holder_sweep_every_member", "nesting_depth>1024", "complete_digraph", "records>100000", "emptied_hub>16384_adoptees"];
 
 fn body(id: &str, c: &BigCase, tier: Tier) {
     let sh = shared();
@@ -253,6 +260,9 @@ fn body(id: &str, c: &BigCase, tier: Tier) {
     }
     if c.sweep {
         return body_sweep(c, tier);
+    }
+    if c.dense {
+        return body_dense(c, tier);
     }
     let mut b = unsafe { build(c, n, m) };
     sh.counters[20] = total as u64;
@@ -761,6 +771,118 @@ fn body_nested(c: &BigCase, _tier: Tier) {
     drop(probe);
 }
 
+/// Dense group (C09 / C01 / C03): see `BigCase::dense`.
+fn body_dense(c: &BigCase, tier: Tier) {
+    let sh = shared();
+    let cap: f64 = if tier == Tier::Thorough { 1100.0 } else { 300.0 };
+    let f = c.size as f64 / 65535.0;
+    let n = ((4.0f64.ln() + f * (cap.ln() - 4.0f64.ln())).exp().round() as usize).max(3);
+    DESTROYED.store(0, Ordering::Relaxed);
+    let mk = |id: usize| {
+        Rc::new(BNode { pad: [id as u64; 136], id: id as u32, canary: CANARY ^ id as u64, clone_on_drop: Cell::new(false), next: RefCell::new(Vec::with_capacity(n + 2)) })
+    };
+    // node i-1 owns the creation handle of node i; every other edge is a clone
+    let h0 = mk(0);
+    let mut slot: Vec<*const Rc<BNode>> = vec![std::ptr::null(); n];
+    let mut adoptions = 0usize;
+    for i in 1..n {
+        let o: &Rc<BNode> = if i == 1 { &h0 } else { unsafe { &*slot[i - 1] } };
+        let h = mk(i);
+        unsafe { Rc::adopt_unchecked(o, &h) };
+        o.next.borrow_mut().push(h);
+        let v = o.next.borrow();
+        slot[i] = &v[v.len() - 1] as *const Rc<BNode>;
+        adoptions += 1;
+    }
+    let handle = |i: usize| -> &Rc<BNode> {
+        if i == 0 {
+            &h0
+        } else {
+            unsafe { &*slot[i] }
+        }
+    };
+    let selfloops = c.double;
+    for a in 0..n {
+        for b in 0..n {
+            if b == a + 1 || (a == b && !selfloops) {
+                continue;
+            }
+            let (ha, hb) = (handle(a), handle(b));
+            let cl = Rc::clone(hb);
+            unsafe { Rc::adopt_unchecked(ha, &cl) };
+            ha.next.borrow_mut().push(cl);
+            adoptions += 1;
+        }
+    }
+    sh.counters[20] = n as u64;
+    sh.counters[22] = adoptions as u64;
+    sh.labels = (1 << L_DENSE) | if adoptions > 100_000 { 1 << L_DENSE_GT100K } else { 0 } | if n > 16 { 1 << L_GT16 } else { 0 } | if n > 128 { 1 << L_GT128 } else { 0 };
+    let indeg = n - 1 + usize::from(selfloops);
+    let kept: Option<(usize, Rc<BNode>)> = c.keep.first().map(|k| {
+        let i = *k as usize % n;
+        (i, Rc::clone(handle(i)))
+    });
+    let weaks: Vec<(usize, Weak<BNode>)> = c.weaks.iter().take(3).map(|k| (*k as usize % n, Rc::downgrade(handle(*k as usize % n)))).collect();
+    let check_counters = |what: &str| {
+        let cn = cactusref::__verif::counters();
+        if cn[2] > 8 * n + 8 || cn[1] > 8 * (n + adoptions) + 8 {
+            violate_soft(View::Scale, &format!("{}: tracing a complete digraph of {} objects / {} adoptions scanned {} tables and popped {} items over {} trace(s)", what, n, adoptions, cn[2], cn[1], cn[0]));
+        }
+    };
+    exec::set_msg(&format!("complete adoption digraph on {} objects ({} adoptions): drop of the handle to object 0", n, adoptions));
+    sh.op = 1;
+    cactusref::__verif::reset();
+    if !drop_small_stack(h0) {
+        violate(View::LibPanic, "the drop panicked");
+    }
+    check_counters("drop of the handle to object 0");
+    if let Some((i, h)) = kept {
+        sh.labels |= 1 << L_KEEP;
+        let d = DESTROYED.load(Ordering::Relaxed);
+        if d != 0 {
+            violate(View::Premature, &format!("complete digraph on {} objects: {} were destroyed although a handle to object {} is still held", n, d, i));
+        }
+        sh.phase = Phase::HeldDeref as u32;
+        let ok = h.id as usize == i && h.canary == CANARY ^ i as u64;
+        sh.phase = 0;
+        if !ok {
+            violate(View::Premature, "held handle no longer yields the original value");
+        }
+        let got = Rc::strong_count(&h);
+        if got != indeg + 1 {
+            violate_soft(View::Count, &format!("object {} of a complete digraph on {}: strong_count={} but {} handles exist", i, n, got, indeg + 1));
+        }
+        for (k, w) in &weaks {
+            if w.strong_count() != indeg + usize::from(*k == i) {
+                violate_soft(View::Weak, &format!("Weak to live object {} reports strong_count={}, {} handles exist", k, w.strong_count(), indeg + usize::from(*k == i)));
+            }
+        }
+        sh.op = 2;
+        exec::set_msg(&format!("complete adoption digraph on {} objects ({} adoptions): drop of the last outside handle (object {})", n, adoptions, i));
+        cactusref::__verif::reset();
+        if !drop_small_stack(h) {
+            violate(View::LibPanic, "the drop panicked");
+        }
+        check_counters("drop of the last outside handle");
+    }
+    let d = DESTROYED.load(Ordering::Relaxed);
+    if d != n {
+        violate_soft(View::Orphan, &format!("complete adoption digraph on {} objects ({} adoptions): every outside handle dropped, the group is orphaned, but only {} objects were destroyed", n, adoptions, d));
+    }
+    if d > n {
+        violate(View::Mem, &format!("{} destructor runs for {} objects", d, n));
+    }
+    sh.counters[27] = d as u64 + 1;
+    for (k, w) in &weaks {
+        if d == n && (w.upgrade().is_some() || w.strong_count() != 0 || w.weak_count() != 0) {
+            violate_soft(View::Weak, &format!("Weak to destroyed object {} of a complete digraph still reports it alive", k));
+        }
+    }
+    sh.phase = Phase::WeakCall as u32;
+    drop(weaks);
+    sh.phase = 0;
+}
+
 /// Sole-holder sweep (C01 / C06 / C09): see `BigCase::sweep`.
 fn body_sweep(c: &BigCase, tier: Tier) {
     let sh = shared();
@@ -881,9 +1003,10 @@ fn body_sweep(c: &BigCase, tier: Tier) {
 fn body_hub_emptied(c: &BigCase, tier: Tier) {
     let sh = shared();
     let (n, _) = sizes(c, tier);
-    let n = n.min(6000);
+    // one case in eight: a hub whose table grew far beyond the other scenarios
+    let n = if (c.order >> 4) % 8 == 0 { 20_000 + (c.order as usize * 13) % 50_000 } else { n.min(6000) };
     sh.counters[20] = n as u64 + 1;
-    sh.labels = (1 << L_HUB_EMPTIED) | (1 << L_GT16) | if n > 128 { 1 << L_GT128 } else { 0 };
+    sh.labels = (1 << L_HUB_EMPTIED) | (1 << L_GT16) | if n > 128 { 1 << L_GT128 } else { 0 } | if n > 16384 { 1 << L_HUB_GT16K } else { 0 };
     let mk = |id: usize| {
         Rc::new(BNode { pad: [id as u64; 136], id: id as u32, canary: CANARY ^ id as u64, clone_on_drop: Cell::new(false), next: RefCell::new(Vec::new()) })
     };
@@ -988,6 +1111,11 @@ impl Kind for BigKind {
             "C03" => 10,
             _ => 0,
         };
+        let dense_pct: u32 = match id {
+            "C09" => 25,
+            "C01" | "C03" | "C05" => 10,
+            _ => 0,
+        };
         let panic_pct: u32 = match id {
             "C03" | "C11" => 40,
             "C02" => 20,
@@ -1028,8 +1156,9 @@ impl Kind for BigKind {
                 order,
                 panic_at: if (cn >> 8) % 100 < panic_pct { Some(cn >> 16) } else { None },
                 // one in four chains is deep (up to 4000 nested collections)
-                nest: if (order >> 3) as u32 % 100 < nest_pct { 2 + if (cn >> 12) % 4 == 0 { (cn >> 14) % 4000 } else { cn % 240 } as u16 } else { 0 },
+                nest: if (order >> 3) as u32 % 100 < nest_pct { 2 + if (cn >> 12) % 4 == 0 { (cn >> 14) % if (cn >> 10) % 4 == 0 { 20_000 } else { 4000 } } else { cn % 240 } as u16 } else { 0 },
                 sweep: (cn >> 4) % 100 < sweep_pct,
+                dense: (cn >> 4) % 100 >= sweep_pct && (cn >> 4) % 100 < sweep_pct + dense_pct,
                 sink: dbl >= sink_from,
                 unwrap_probe: unwrap_probe && order & 1 == 1,
                 nodrop: (order >> 8) as u32 % 100 < nodrop_pct,
